@@ -742,6 +742,8 @@ func (p *Parser) parseImportStmt() (importStmt ImportStmt) {
 						importStmt.List = append(importStmt.List, Alias{})
 						break
 					}
+				} else {
+					break // specifiers are separated by commas
 				}
 			}
 			if !p.consume("import statement", CloseBraceToken) {
@@ -817,6 +819,8 @@ func (p *Parser) parseExportStmt() (exportStmt ExportStmt) {
 						exportStmt.List = append(exportStmt.List, Alias{})
 						break
 					}
+				} else {
+					break // specifiers are separated by commas
 				}
 			}
 			if !p.consume("export statement", CloseBraceToken) {
